@@ -185,6 +185,8 @@ def run(ctx):
     if ctx.tier == "quick":
         cases = rng.sample(cases, min(len(cases), 320))
         cases += [o for o in long_ids if o not in cases]
+        with_cond = [o for o in res.emitted if o.get("cond")]
+        cases += [o for o in rng.sample(with_cond, min(len(with_cond), 12)) if o not in cases]
     jobs = [(o, (rng.sample(all_combos, 3) if (ctx.tier == "quick" and o not in long_ids) else all_combos)) for o in cases]
     for n, divs in par.pmap(_check, jobs, chunk=2):
         ctx.evaluations += n
